@@ -20,8 +20,8 @@ ASSUMPTIONS = [
 ]
 RULE = ("sessions = handshake variant (3.3/3.7/3.8/3.889/4.x/5.0/odd banners, None or VNC auth, extra security types) + 0..6 server messages "
         "(FramebufferUpdate with 0..5 rectangles in Raw/CopyRect/RRE/CoRRE/Hextile/ZRLE/cursor/DesktopSize/QEMU-ext, LastRect, Bell, ServerCutText, "
-        "SetColourMapEntries) in the pixel format in force, every ninth session followed by a run of 300..1100 small messages; each delivered whole, byte-wise, cut at every message boundary +-1, 2 random chunkings and one "
-        "gluing chunking; base / library / CLI / VMware client classes; non-trivial = distinct (session, chunking) with more than one chunk")
+        "SetColourMapEntries) in the pixel format in force, every ninth session followed by a run of 300..1100 small messages; each delivered whole, byte-wise, cut at every message boundary +-1, 2 random chunkings, one "
+        "gluing chunking, one cut at the start of every large block, one cut at every block boundary of the client (measured); base / library / CLI / VMware client classes; non-trivial = distinct (session, chunking) with more than one chunk")
 
 
 def arm_waiter(c, trace):
@@ -42,6 +42,31 @@ def run_chunks(kind, opts, chunks):
         arm_waiter(c, trace)
     per = feed_impl(c, trace, chunks)
     return c, per, zlog
+
+
+def block_starts(kind, opts, stream):
+    """offsets at which the real client, given the whole stream at once, starts to wait for its next block, with the size it
+    asks for (measured by wrapping `expect` on a throw-away instance; only used to CHOOSE chunkings - any list is sound)"""
+    offs = []
+    try:
+        c, trace, zlog = new_client(kind, **opts)
+        if kind != "base":
+            arm_waiter(c, trace)
+        orig = c.expect
+        total = len(stream)
+
+        def expect(handler, size, *a, **k):
+            try:
+                offs.append((total - len(c._packet), size))
+            except Exception:
+                pass
+            return orig(handler, size, *a, **k)
+        c.expect = expect
+        feed_impl(c, trace, [stream])
+    except BaseException as e:
+        if type(e).__name__ in ("Spin", "KeyboardInterrupt", "SystemExit"):
+            raise
+    return [(o, z) for o, z in offs if 0 < o < len(stream)]
 
 
 def vm_matches(ch):
@@ -112,6 +137,15 @@ def run(ctx):
                     many.append((sess.update([one], False, r=r), ("update", [one], False)))
             msgs += many
             ctx.count("long_runs_of_small_messages")
+        if si % 7 == 2:
+            # large blocks (a long clipboard text, a raw rectangle of more than a kilobyte) between ordinary messages
+            txt = bytes(r.randrange(256) for _ in range(r.choice([1024, 1500, 5000])))
+            msgs.append((sess.cuttext(txt), ("cut", txt)))
+            msgs.append((sess.bell(), ("bell",)))
+            big_ = enc_raw(r, pf, 0, 0, 24, 16)
+            msgs.append((sess.update([big_]), ("update", [big_], False)))
+            msgs.append((sess.cuttext(b"ok"), ("cut", b"ok")))
+            ctx.count("sessions_with_large_blocks")
         if kind == "vmware" and pf.bypp == 4:
             # the workaround's own trigger: 1x1 raw updates of the top-left pixel
             for _ in range(r.randint(1, 3)):
@@ -175,6 +209,21 @@ def run(ctx):
             bounds.append(pos)
         chs = chunkings(r, stream, bounds)
         chs.append([p for p in pieces if p])           # exactly one message per chunk
+        # chunk boundaries exactly where the client's receive buffer runs empty (seeded C01ac: a fast path for a chunk that
+        # STARTS with a complete large block): a cut at the start of every large block only, and - when there are not too many -
+        # a cut at every block boundary, so that every handler is handed exactly its own block
+        bst = block_starts(kind, opts, stream) if kind != "vmware" else []
+        if bst:
+            n_ = len(stream)
+            big = sorted({o for o, z in bst if 256 <= z <= n_})
+            if big:
+                chs.append([c_ for c_ in (stream[a:b] for a, b in zip([0] + big, big + [n_])) if c_])
+                ctx.count("chunkings_cut_at_large_block_starts")
+                ctx.count("large_blocks_1024_and_more", sum(1 for o, z in bst if 1024 <= z <= n_))
+            allb = sorted({o for o, z in bst})
+            if len(allb) <= 1500:
+                chs.append([c_ for c_ in (stream[a:b] for a, b in zip([0] + allb, allb + [n_])) if c_])
+                ctx.count("chunkings_cut_at_every_block_boundary")
         ref = None
         lines_all = []
         meta = []
